@@ -638,19 +638,29 @@ func (sc *SecretManagerClient) generateRootCertFromExistingFile(rootCertPath, re
 func (sc *SecretManagerClient) generateKeyCertFromExistingFiles(certChainPath, keyPath, resourceName string) (*security.SecretItem, error) {
 	// There is a remote possibility that key is written and cert is not written yet.
 	// To handle that case, check if cert and key are valid if they are valid then only send to proxy.
+	// Validate the very bytes that are returned: checking the files and reading them again afterwards would
+	// let a writer slip in between and a key and a certificate of different versions would be served.
 	o := backoff.DefaultOption()
 	o.InitialInterval = sc.configOptions.FileDebounceDuration
 	b := backoff.NewExponentialBackOff(o)
+	var item *security.SecretItem
 	secretValid := func() error {
-		_, err := tls.LoadX509KeyPair(certChainPath, keyPath)
-		return err
+		it, err := sc.keyCertSecretItem(certChainPath, keyPath, resourceName)
+		if err != nil {
+			return err
+		}
+		if _, err := tls.X509KeyPair(it.CertificateChain, it.PrivateKey); err != nil {
+			return err
+		}
+		item = it
+		return nil
 	}
 	ctx, cancel := context.WithTimeout(context.Background(), totalTimeout)
 	defer cancel()
 	if err := b.RetryWithContext(ctx, secretValid); err != nil {
 		return nil, err
 	}
-	return sc.keyCertSecretItem(certChainPath, keyPath, resourceName)
+	return item, nil
 }
 
 func (sc *SecretManagerClient) keyCertSecretItem(cert, key, resource string) (*security.SecretItem, error) {
